@@ -108,7 +108,7 @@ def tagged_object_below_unknown_key(draw, spec, t):
     # an unknown key, or a second occurrence of a present key (also under its
     # dashed spelling: after dashes_to_unders_in_keys both collide)
     present = [k[1] for k, _ in mp[1] if k[0] == 's']
-    names = ['zz_extra', 'Key', 'another-key'] + present + [k.replace('_', '-') for k in present if '_' in k]
+    names = ['zz_extra', 'Key', 'another-key', '_yatiml_extra', 'self'] + present + [k.replace('_', '-') for k in present if '_' in k]
     if draw(st.integers(0, 3)) == 0:
         # the tagged object (or a list holding it) is itself the key of a pair
         pair = [sub, T.S('v')]
